@@ -58,11 +58,13 @@ fn gen_inline_image(r: &mut Rng, c: &mut Ctx) -> (Vec<u8>, Operation) {
     d.set(if abbr { "BPC" } else { "BitsPerComponent" }, Object::Integer(bpc as i64));
     d.set(if abbr { "CS" } else { "ColorSpace" }, Object::Name(name.as_bytes().to_vec()));
     if r.chance(1, 3) { d.set("I", Object::Boolean(true)); }
+    // extra entries whose keys need #-escaping when written back
+    if r.chance(1, 3) { let mut k = gen_bytes(r, 6); k.retain(|b| *b != 0); if !k.is_empty() && ![&b"W"[..], b"H", b"BPC", b"CS", b"F", b"Width", b"Height", b"BitsPerComponent", b"ColorSpace", b"Filter", b"Length", b"I"].contains(&&k[..]) { d.set(k, Object::Integer(r.range(0, 9))); c.count("inline.odd_key"); } }
     c.count(&format!("inline.cs.{}", name));
     let mut text = b"BI".to_vec();
     text.extend_from_slice(*r.pick(&[&b" "[..], b"\n", b"\r\n", b"\t "]));
     for (k, v) in d.iter() {
-        text.push(b'/'); text.extend_from_slice(k); text.push(b' ');
+        lopdf::verif_api::Writer::write_object(&mut text, &Object::Name(k.clone())).unwrap(); text.push(b' ');
         lopdf::verif_api::Writer::write_object(&mut text, v).unwrap();
         text.extend_from_slice(*r.pick(&[&b" "[..], b"\n"]));
     }
@@ -97,6 +99,17 @@ embedded between ordinary operations; decoder-only token soups. Non-trivial = at
         let k = r.usize(6);
         let ops: Vec<Operation> = (0..k).map(|_| { let m = r.usize(5); Operation::new(&gen_operator(&mut r), (0..m).map(|_| gen_operand(&mut r)).collect()) }).collect();
         check_ops(c, &ops, i < 2);
+    }
+    // ---- literal-string operands around the parser's nesting limit (MAX_BRACKET) and with odd parenthesis shapes
+    for i in 0..c.n(120, 1200) {
+        let Some(mut r) = c.case("deep_parens", i) else { continue };
+        let depth = 90 + r.usize(25);
+        let mut sbytes = vec![b'('; depth];
+        if r.chance(1, 2) { sbytes.extend_from_slice(b"x\\y"); }
+        sbytes.extend(vec![b')'; depth - r.usize(3)]);
+        if r.chance(1, 3) { sbytes.insert(r.usize(sbytes.len()), b')'); }
+        let ops = vec![Operation::new("BT", vec![]), Operation::new("Tj", vec![Object::String(sbytes, StringFormat::Literal)]), Operation::new("ET", vec![])];
+        check_ops(c, &ops, false);
     }
     // ---- byte sweep through operands
     if let Some(mut r) = c.case("sweep", 0) {
